@@ -401,6 +401,21 @@ impl Prop for C05 {
     fn exhaustive_note(tier: Tier) -> Option<String> {
         Some(format!("for every file under /repo/resources/test: each of 14 palette values (both endiannesses) and len+-4 in every 32-bit word of the first 2 KiB (64 KiB in thorough); every truncation length{}; 48 wrapping header triples; all-0x00/0xFF/0x70 inputs of length 0..=8; short 'pack' headers", if tier == Tier::Quick { " up to 2048" } else { "" }))
     }
+    fn corpus(seed: u64) -> Vec<Vec<u8>> {
+        let mut v = Vec::new();
+        let arch = content_strategy(64, 10, 8, false);
+        for i in 0..30u64 {
+            let s = seed.wrapping_mul(1000).wrapping_add(i);
+            v.push(source_bytes(&Source::Archive(gen_from(&arch, s))));
+            v.push(source_bytes(&Source::Text(s)));
+            v.push(source_bytes(&Source::Pack(s)));
+            v.push(source_bytes(&Source::Arc(s)));
+            v.push(source_bytes(&Source::Aset(s)));
+            v.push(source_bytes(&Source::Asset(s)));
+        }
+        v.retain(|f| f.len() <= 4096);
+        v
+    }
     fn shrink(c: &Case) -> Vec<Case> {
         let mut v = Vec::new();
         for i in 0..c.mutations.len() {
